@@ -39,16 +39,24 @@ type shedModel struct {
 	dropped   bool
 }
 
-// capacity interval over the documented window and that window shifted/extended by one bucket.
+// c02WindowSlack (VERIF_C02_WINDOW_SLACK=1) widens the capacity interval to the documented window shifted
+// or extended by one bucket either way.  It was the default until seed C02j (an estimate cached for up to
+// one bucket interval past a roll) showed that the slack hides exactly the staleness the clause "over the
+// sliding window" forbids; the model runs on the same virtual clock and the same bucket grid as the code
+// (grid anchored at construction, C16 decides RollingWindow itself), so it can be exact.
+var c02WindowSlack = verifkit.EnvInt("c02_window_slack", 0) == 1
+
+// capacity interval over the documented window (the only tolerance left is the rounding of the average
+// latency, which the statement leaves open).
 func (m *shedModel) capacity() (lo, hi float64) {
 	cur := int64(m.now / m.bucketDur)
 	type rng struct{ from, to int64 }
 	variants := []rng{
 		{cur - m.size + 1, cur - 1}, // documented: last `size` buckets, current one ignored
-		{cur - m.size, cur - 1},
-		{cur - m.size + 2, cur - 1},
-		{cur - m.size + 1, cur},
-		{cur - m.size + 1, cur - 2},
+	}
+	if c02WindowSlack {
+		variants = append(variants, rng{cur - m.size, cur - 1}, rng{cur - m.size + 2, cur - 1},
+			rng{cur - m.size + 1, cur}, rng{cur - m.size + 1, cur - 2})
 	}
 	lo, hi = math.Inf(1), 0
 	for _, v := range variants {
